@@ -1,6 +1,6 @@
 /-
-C08 helper lemmas, part 2: the inductive invariant of the replication model and its
-preservation by every sub-step (handshake, connect, send phase) and every event.
+C08 helper lemmas, part 2: the per-follower invariant `InvC` of the replication model over the
+components it mentions, and one lemma per way those components change.
 -/
 import LinVerif.Lemmas.C08Log
 
@@ -10,13 +10,15 @@ namespace LinVerif.Replication
 def Agr (L : Log) (lo hi : Int) (F : Log) : Prop :=
   ∀ i m m', lo < i → i ≤ hi → L.get i = some m → F.get i = some m' → m = m'
 
-/-- leader-internal invariant (queue + the follower's consumer group) -/
+/-- leader-internal invariant (queue + one follower's consumer group); `L.ack ≤ gack` is kept
+separately (`InvC.ackg`) because it does not hold for a group that IsExpire has stopped -/
 structure LInt (L : Log) (cons gack : Int) : Prop where
   ack_ge : -1 ≤ L.ack
   ack_app : L.ack ≤ L.app
-  ack_gack : L.ack ≤ gack
+  gack_ge : -1 ≤ gack
   gack_cons : gack ≤ cons
   cons_app : cons ≤ L.app ∨ cons = gack
+  cons_le : cons ≤ L.app + 1
   holes : NoHoles L
 
 structure FInt (F : Log) : Prop where
@@ -27,36 +29,41 @@ structure FInt (F : Log) : Prop where
 /-- the image log `I` is a past state of `L`: not longer, and the pages up to its end are the same -/
 def Pre (I L : Log) : Prop := I.app ≤ L.app ∧ ∀ i, i ≤ I.app → lookup i L.store = lookup i I.store
 
-structure ImgOK (im : Img) (L F : Log) : Prop where
+/-- one follower's view of a saved image: the queue and that follower's group positions -/
+structure ImgV where
+  L : Log
+  cons : Int
+  gack : Int
+
+def Img.va (i : Img) : ImgV := { L := i.L, cons := i.cons, gack := i.gack }
+def Img.vb (i : Img) : ImgV := { L := i.L, cons := i.cons2, gack := i.gack2 }
+
+structure ImgOK (im : ImgV) (L F : Log) : Prop where
   lint : LInt im.L im.cons im.gack
   agr : Agr im.L im.gack im.cons F
   pre : Pre im.L L
 
-/-- the invariant over the components it mentions -/
-structure InvC (L : Log) (cons gack : Int) (F : Log) (chan : Chan) (stream : Stream)
-    (img : Option Img) : Prop where
+/-- the invariant of ONE follower's channel over the components it mentions
+(`stp`: the group has been stopped by IsExpire) -/
+structure InvC (L : Log) (cons gack : Int) (F : Log) (chan : Chan) (stream : Stream) (dz stp : Bool)
+    (iv : List ImgV) : Prop where
   lint : LInt L cons gack
+  ackg : stp = false → L.ack ≤ gack
   fint : FInt F
   k : chan = .ready → F.app ≤ cons
-  sync : chan = .ready → stream ≠ .broken → cons = F.app
+  sync : chan = .ready → dz = false → stream ≠ .broken → cons = F.app
   agr : Agr L gack cons F
-  img : ∀ im, img = some im → ImgOK im L F
-
-@[reducible] def Inv (s : St) : Prop := InvC s.L s.cons s.gack s.F s.chan s.stream s.img
-
-/-- invariant at event boundaries: a ready channel holds a stream -/
-def BInv (s : St) : Prop := Inv s ∧ (s.chan = .ready → s.stream ≠ .none)
+  img : ∀ im, im ∈ iv → ImgOK im L F
 
 /-- the follower's held bytes are the leader's page content (histories WITHOUT leader tail loss) -/
 def G (L F : Log) : Prop := ∀ i m', F.get i = some m' → i ≤ L.app ∧ lookup i L.store = some m'
 
-/-- extra invariant of histories without leader tail loss -/
-structure NLC (L : Log) (cons : Int) (F : Log) : Prop where
+/-- extra per-follower invariant of histories without leader tail loss -/
+structure NLC (L : Log) (cons gack : Int) (F : Log) : Prop where
   cons_app : cons ≤ L.app
   f_app : F.app ≤ L.app
+  f_ack : F.ack ≤ gack
   g : G L F
-
-@[reducible] def NL (s : St) : Prop := NLC s.L s.cons s.F
 
 /-! ### Agr / Pre -/
 
@@ -133,223 +140,116 @@ theorem pre_get_eq {I L : Log} {c : Int} {m m' : Msg} (h : Pre I L) (hi : I.get 
 
 /-! ### InvC building blocks -/
 
-theorem imgok_follower {im : Img} {L F F' : Log} (h : ImgOK im L F) (ha : Agr im.L im.gack im.cons F') :
+section
+variable {L : Log} {c g : Int} {F : Log} {ch ch' : Chan} {st st' : Stream} {dz dz' stp : Bool} {iv : List ImgV}
+
+theorem imgok_follower {im : ImgV} {L F F' : Log} (h : ImgOK im L F) (ha : Agr im.L im.gack im.cons F') :
     ImgOK im L F' := ⟨h.lint, ha, h.pre⟩
 
-theorem imgok_leader {im : Img} {L L' F : Log} (h : ImgOK im L F) (hp : Pre im.L L') :
+theorem imgok_leader {im : ImgV} {L L' F : Log} (h : ImgOK im L F) (hp : Pre im.L L') :
     ImgOK im L' F := ⟨h.lint, h.agr, hp⟩
 
-/-- any non-ready channel state; the stream may be anything -/
-theorem invc_notready {L : Log} {c g : Int} {F : Log} {ch ch' : Chan} {st st' : Stream} {im : Option Img}
-    (h : InvC L c g F ch st im) (hc : ch' ≠ .ready) : InvC L c g F ch' st' im :=
-  ⟨h.lint, h.fint, fun e => absurd e hc, fun e => absurd e hc, h.agr, h.img⟩
+theorem lint_cons_ge (h : LInt L c g) : -1 ≤ c := by
+  have := h.gack_ge; have := h.gack_cons; omega
+
+/-- any non-ready channel state; the stream and the ghost flag may be anything -/
+theorem invc_notready (h : InvC L c g F ch st dz stp iv) (hc : ch' ≠ .ready) : InvC L c g F ch' st' dz' stp iv :=
+  ⟨h.lint, h.ackg, h.fint, fun e => absurd e hc, fun e => absurd e hc, h.agr, h.img⟩
 
 /-- the channel becomes ready with the replica index at the follower's next index -/
-theorem invc_ready {L : Log} {c g : Int} {F : Log} {ch : Chan} {st st' : Stream} {im : Option Img}
-    (h : InvC L c g F ch st im) (hc : c = F.app) : InvC L c g F .ready st' im :=
-  ⟨h.lint, h.fint, fun _ => by omega, fun _ _ => hc, h.agr, h.img⟩
+theorem invc_ready (h : InvC L c g F ch st dz stp iv) (hc : c = F.app) : InvC L c g F .ready st' dz' stp iv :=
+  ⟨h.lint, h.ackg, h.fint, fun _ => by omega, fun _ _ _ => hc, h.agr, h.img⟩
 
-/-- stream changes that keep the `sync` obligation -/
-theorem invc_stream {L : Log} {c g : Int} {F : Log} {ch : Chan} {st st' : Stream} {im : Option Img}
-    (h : InvC L c g F ch st im) (hs : ch = .ready → st' ≠ .broken → st ≠ .broken) : InvC L c g F ch st' im :=
-  ⟨h.lint, h.fint, h.k, fun e n => h.sync e (hs e n), h.agr, h.img⟩
+/-- stream / ghost changes that keep the `sync` obligation -/
+theorem invc_stream (h : InvC L c g F ch st dz stp iv)
+    (hs : ch = .ready → dz' = false → st' ≠ .broken → dz = false ∧ st ≠ .broken) : InvC L c g F ch st' dz' stp iv :=
+  ⟨h.lint, h.ackg, h.fint, h.k, fun e d n => h.sync e (hs e d n).1 (hs e d n).2, h.agr, h.img⟩
 
 /-- handshake branch "follower behind the group's ack": follower reset to `g`, replica index rewound to `g+1` -/
-theorem invc_follower_reset {L : Log} {c g : Int} {F : Log} {ch : Chan} {st st' : Stream} {im : Option Img}
-    (h : InvC L c g F ch st im) : InvC L g g (F.setAppended g) .ready st' im := by
+theorem invc_follower_reset (h : InvC L c g F ch st dz stp iv) : InvC L g g (F.setAppended g) .ready st' dz' stp iv := by
   have hl := h.lint
-  refine ⟨⟨hl.ack_ge, hl.ack_app, hl.ack_gack, Int.le_refl _, Or.inr rfl, hl.holes⟩,
-    ⟨by simp only [Log.setAppended]; have := hl.ack_ge; have := hl.ack_gack; omega,
+  refine ⟨⟨hl.ack_ge, hl.ack_app, hl.gack_ge, Int.le_refl _, Or.inr rfl, by have := hl.gack_cons; have := hl.cons_le; omega, hl.holes⟩,
+    h.ackg,
+    ⟨by simp only [Log.setAppended]; exact hl.gack_ge,
      by simp only [Log.setAppended]; omega, noHoles_setAppended⟩,
-    fun _ => by simp only [Log.setAppended]; omega, fun _ _ => by simp only [Log.setAppended],
+    fun _ => by simp only [Log.setAppended]; omega, fun _ _ _ => by simp only [Log.setAppended],
     agr_empty_range (Int.le_refl _), ?_⟩
   intro i hi
   exact imgok_follower (h.img i hi) (agr_follower_holds_nothing (fun _ => get_setAppended))
 
 /-- handshake branch "rewind replica index and ack to the follower's appended index" -/
-theorem invc_rewind {L : Log} {c g : Int} {F : Log} {ch : Chan} {st st' : Stream} {im : Option Img}
-    (h : InvC L c g F ch st im) (hg : g ≤ F.app) : InvC L F.app F.app F .ready st' im := by
+theorem invc_rewind (h : InvC L c g F ch st dz stp iv) (hg : g ≤ F.app) (hle : F.app ≤ L.app + 1) :
+    InvC L F.app F.app F .ready st' dz' stp iv := by
   have hl := h.lint
-  exact ⟨⟨hl.ack_ge, hl.ack_app, by have := hl.ack_gack; omega, Int.le_refl _, Or.inr rfl, hl.holes⟩,
-    h.fint, fun _ => Int.le_refl _, fun _ _ => rfl, agr_empty_range (Int.le_refl _), h.img⟩
+  exact ⟨⟨hl.ack_ge, hl.ack_app, by have := hl.gack_ge; omega, Int.le_refl _, Or.inr rfl, hle, hl.holes⟩,
+    fun e => by have := h.ackg e; omega,
+    h.fint, fun _ => Int.le_refl _, fun _ _ _ => rfl, agr_empty_range (Int.le_refl _), h.img⟩
 
 /-- handshake branch "follower ahead of the leader's append index": everything jumps to the follower's index -/
-theorem invc_reset_append {L : Log} {c g : Int} {F : Log} {ch : Chan} {st st' : Stream} {im : Option Img}
-    (h : InvC L c g F ch st im) (hk : L.app ≤ F.app) :
-    InvC (L.setAppended F.app) F.app F.app F .ready st' im := by
+theorem invc_reset_append (h : InvC L c g F ch st dz stp iv) (hk : L.app ≤ F.app) :
+    InvC (L.setAppended F.app) F.app F.app F .ready st' dz' stp iv := by
   have hf := h.fint
-  refine ⟨⟨by simp only [Log.setAppended]; have := hf.ack_ge; have := hf.ack_app; omega,
-      by simp only [Log.setAppended]; omega, by simp only [Log.setAppended]; omega,
-      Int.le_refl _, Or.inr rfl, noHoles_setAppended⟩,
-    hf, fun _ => Int.le_refl _, fun _ _ => rfl, agr_empty_range (Int.le_refl _), ?_⟩
+  have hfa : -1 ≤ F.app := by have := hf.ack_ge; have := hf.ack_app; omega
+  refine ⟨⟨by simp only [Log.setAppended]; exact hfa,
+      by simp only [Log.setAppended]; omega, hfa,
+      Int.le_refl _, Or.inr rfl, by simp only [Log.setAppended]; omega, noHoles_setAppended⟩,
+    fun _ => by simp only [Log.setAppended]; omega,
+    hf, fun _ => Int.le_refl _, fun _ _ _ => rfl, agr_empty_range (Int.le_refl _), ?_⟩
   intro i hi
   exact imgok_leader (h.img i hi) (pre_setAppended (h.img i hi).pre hk)
 
-/-! ### NLC building blocks -/
+/-- the OTHER follower's handshake reset the leader's append index to `k`: the queue jumps to `k`
+and so does this group unless it is stopped; if this channel was ready the ghost flag is raised -/
+theorem invc_other_reset_append {k : Int} (h : InvC L c g F ch st dz stp iv) (hk : L.app ≤ k) (hc : c ≤ k)
+    (hd : ch = .ready → dz' = true) :
+    InvC (L.setAppended k) (if stp = true then c else k) (if stp = true then g else k) F ch st dz' stp iv := by
+  have hl := h.lint
+  have hk1 : -1 ≤ k := by have := hl.ack_ge; have := hl.ack_app; omega
+  have himg : ∀ im, im ∈ iv → ImgOK im (L.setAppended k) F := fun i hi =>
+    imgok_leader (h.img i hi) (pre_setAppended (h.img i hi).pre hk)
+  have hsync : ch = .ready → dz' = false → st ≠ .broken → False := by
+    intro e d _; rw [hd e] at d; cases d
+  cases stp with
+  | true =>
+    simp only [if_true]
+    exact ⟨⟨by simp only [Log.setAppended]; exact hk1, by simp only [Log.setAppended]; omega, hl.gack_ge, hl.gack_cons,
+        Or.inl (by simp only [Log.setAppended]; exact hc), by simp only [Log.setAppended]; omega, noHoles_setAppended⟩,
+      (fun e => by cases e), h.fint, h.k, (fun e d n => (hsync e d n).elim),
+      agr_leader_holds_nothing (fun _ => get_setAppended), himg⟩
+  | false =>
+    simp only [Bool.false_eq_true, if_false]
+    exact ⟨⟨by simp only [Log.setAppended]; exact hk1, by simp only [Log.setAppended]; omega, hk1,
+        Int.le_refl _, Or.inr rfl, by simp only [Log.setAppended]; omega, noHoles_setAppended⟩,
+      (fun _ => by simp only [Log.setAppended]; omega), h.fint, (fun e => by have := h.k e; omega),
+      (fun e d n => (hsync e d n).elim), agr_leader_holds_nothing (fun _ => get_setAppended), himg⟩
 
-theorem g_follower_holds_nothing {L F : Log} (h : ∀ i, F.get i = none) : G L F := by
-  intro i m' hf; rw [h i] at hf; cases hf
-
-theorem nlc_follower_reset {L : Log} {c g : Int} {F : Log} (h : NLC L c F) (hg : g ≤ c) :
-    NLC L g (F.setAppended g) :=
-  ⟨by have := h.cons_app; omega, by simp only [Log.setAppended]; have := h.cons_app; omega,
-   g_follower_holds_nothing (fun _ => get_setAppended)⟩
-
-theorem nlc_rewind {L : Log} {c : Int} {F : Log} (h : NLC L c F) : NLC L F.app F :=
-  ⟨h.f_app, h.f_app, h.g⟩
-
-theorem nlc_reset_append {L : Log} {c : Int} {F : Log} (h : NLC L c F) :
-    NLC (L.setAppended F.app) F.app F := by
-  refine ⟨by simp only [Log.setAppended]; omega, by simp only [Log.setAppended]; omega, ?_⟩
-  intro i m' hf
-  have hb := get_some hf
-  exact ⟨by simp only [Log.setAppended]; exact hb.2.1, by simp only [Log.setAppended]; exact (h.g i m' hf).2⟩
-
-theorem nlc_consume {L : Log} {c : Int} {F : Log} (h : NLC L c F) (hle : c + 1 ≤ L.app) : NLC L (c + 1) F :=
-  ⟨hle, h.f_app, h.g⟩
-
-theorem nlc_deliver {L : Log} {c : Int} {F : Log} {m : Msg} (h : NLC L c F) (hc : c = F.app)
-    (hle : c + 1 ≤ L.app) (hm : L.get (c + 1) = some m) (hf : F.ack ≤ F.app) : NLC L (c + 1) (F.put m) := by
-  refine ⟨hle, by simp only [Log.put]; omega, ?_⟩
-  intro i m' hg
-  by_cases hi : i = F.app + 1
-  · subst hi
-    rw [get_put_eq hf] at hg
-    cases hg
-    rw [← hc]
-    exact ⟨hle, (get_some hm).2.2⟩
-  · rw [get_put_ne hi] at hg
-    exact h.g i m' hg
-
-theorem nlc_append {L : Log} {c : Int} {F : Log} {m : Msg} (h : NLC L c F) : NLC (L.put m) c F := by
-  refine ⟨by simp only [Log.put]; have := h.cons_app; omega, by simp only [Log.put]; have := h.f_app; omega, ?_⟩
-  intro i m' hf
-  have hx := h.g i m' hf
-  refine ⟨by simp only [Log.put]; omega, ?_⟩
-  simp only [Log.put]
-  rw [lookup_cons_ne (by omega)]
-  exact hx.2
-
-theorem nlc_flose {L : Log} {c : Int} {F : Log} (h : NLC L c F) (hl : -1 ≤ L.app) : NLC L c Log.empty := by
-  refine ⟨h.cons_app, by simp only [Log.empty]; exact hl, g_follower_holds_nothing ?_⟩
-  intro i; unfold Log.get Log.empty; dsimp only; split
-  · rename_i hc; omega
-  · rfl
-
-theorem nlc_gc {L : Log} {c a : Int} {F : Log} (h : NLC L c F) : NLC (L.setAck a) c F :=
-  ⟨by rw [setAck_app]; exact h.cons_app, by rw [setAck_app]; exact h.f_app,
-   fun i m' hf => by rw [setAck_app, setAck_store]; exact h.g i m' hf⟩
-
-/-- full agreement follows from `G` -/
-theorem agreement_of_g {L F : Log} (h : G L F) {i : Int} {m m' : Msg} (hl : L.get i = some m)
-    (hf : F.get i = some m') : m = m' := by
-  have a := (get_some hl).2.2
-  have b := (h i m' hf).2
-  rw [a] at b; cases b; rfl
-
-/-! ### sub-steps of `partition.replica` -/
-
-theorem inv_mk {s' : St} {L : Log} {c g : Int} {F : Log} {ch : Chan} {st : Stream} {im : Option Img}
-    (h : InvC L c g F ch st im) (e1 : s'.L = L) (e2 : s'.cons = c) (e3 : s'.gack = g) (e4 : s'.F = F)
-    (e5 : s'.chan = ch) (e6 : s'.stream = st) (e7 : s'.img = im) : Inv s' := by
-  subst e1 e2 e3 e4 e5 e6 e7; exact h
-
-structure HsPost (s s' : St) (ok : Bool) : Prop where
-  inv : Inv s'
-  ok_ready : ok = true → s'.chan = .ready ∧ s'.stream = .none ∧ s'.cons = s'.F.app
-  ok_idx : ok = true → s'.cons = (if s.F.app < s.gack then s.gack else s.F.app)
-  fail : ok = false → s'.chan = .failure
-  ackok : s'.gack ≠ s.gack → s'.gack ≤ s'.F.app
-  nl : NL s → NL s'
-
-theorem handshake_spec (cfg : Cfg) (s : St) (f : Fault) (h : Inv s) :
-    HsPost s (handshake cfg s f).1 (handshake cfg s f).2 := by
-  have hfail : ∀ st : Stream, HsPost s { s with chan := .failure, stream := st } false :=
-    fun st => ⟨invc_notready h (fun e => by cases e), by simp, by simp, by simp, by simp, id⟩
-  have hgc := h.lint.gack_cons
-  unfold handshake replicaAckIndex resetReplicaIndex followerReset
-  dsimp only
-  split
-  · exact hfail _
-  split
-  · exact hfail _
-  split
-  · -- equal
-    rename_i heq
-    have hc : s.cons = s.F.app := by omega
-    refine ⟨inv_mk (invc_ready (st' := .none) h hc) rfl rfl rfl rfl rfl rfl rfl, fun _ => ⟨rfl, rfl, hc⟩, ?_, by simp, by simp, id⟩
-    intro _
-    dsimp only
-    split <;> omega
-  split
-  · rename_i hlt
-    split
-    · exact hfail _
-    · have e : s.gack + 1 - 1 = s.gack := by omega
-      rw [e]
-      refine ⟨inv_mk (invc_follower_reset (st' := .none) h) rfl rfl rfl rfl rfl rfl rfl, fun _ => ⟨rfl, rfl, rfl⟩, ?_, by simp, by simp,
-        fun n => nlc_follower_reset n hgc⟩
-      intro _
-      dsimp only
-      rw [if_pos hlt]
-  · rename_i hne hge
-    have e : s.F.app + 1 - 1 = s.F.app := by omega
-    by_cases hah : aheadFires cfg s.F.app (s.L.app + 1) = true
-    · simp only [hah, if_true, resetAppendIndex, ackGroup, e, Int.le_refl, and_self]
-      have hk : s.L.app ≤ s.F.app := by
-        unfold aheadFires at hah
-        split at hah <;> simp at hah <;> omega
-      refine ⟨inv_mk (invc_reset_append (st' := .none) h hk) rfl rfl rfl rfl rfl rfl rfl, fun _ => ⟨rfl, rfl, rfl⟩, ?_, by simp, by simp,
-        fun n => nlc_reset_append n⟩
-      intro _
-      dsimp only
-      rw [if_neg hge]
-    · have hah' : aheadFires cfg s.F.app (s.L.app + 1) = false := by simpa using hah
-      have hg : s.gack ≤ s.F.app := by omega
-      simp only [hah', Bool.false_eq_true, if_false, ackGroup, e, Int.le_refl, and_true, hg, if_true]
-      refine ⟨inv_mk (invc_rewind (st' := .none) h hg) rfl rfl rfl rfl rfl rfl rfl, fun _ => ⟨rfl, rfl, rfl⟩, ?_, by simp, by simp,
-        fun n => nlc_rewind n⟩
-      intro _
-      dsimp only
-      rw [if_neg hge]
-
-structure CnPost (s s' : St) (ok : Bool) : Prop where
-  inv : Inv s'
-  same : s'.L = s.L ∧ s'.cons = s.cons ∧ s'.gack = s.gack ∧ s'.F = s.F ∧ s'.img = s.img
-  ok_ready : ok = true → s'.chan = .ready ∧ s'.stream ≠ .none
-  fail : ok = false → s'.chan = .failure
-
-theorem connect_spec (s : St) (f : Fault) (h : Inv s) (hr : s.chan = .ready) :
-    CnPost s (connect s f).1 (connect s f).2 := by
-  unfold connect
-  split
-  · rename_i hs
-    exact ⟨h, ⟨rfl, rfl, rfl, rfl, rfl⟩, fun _ => ⟨hr, hs⟩, by simp⟩
-  · rename_i hs
-    have hs' : s.stream = .none := by
-      cases hst : s.stream <;> simp_all
-    split
-    · exact ⟨invc_notready h (fun e => by cases e), ⟨rfl, rfl, rfl, rfl, rfl⟩, by simp, by simp⟩
-    · have hc : s.cons = s.F.app := h.sync hr (by rw [hs']; intro e; cases e)
-      exact ⟨inv_mk (invc_ready (st' := .up) h hc) rfl rfl rfl rfl rfl rfl rfl, ⟨rfl, rfl, rfl, rfl, rfl⟩,
-        fun _ => ⟨rfl, by simp⟩, by simp⟩
+/-- Connect created the stream -/
+theorem invc_connect (h : InvC L c g F .ready .none dz stp iv) : InvC L c g F .ready .up dz stp iv :=
+  ⟨h.lint, h.ackg, h.fint, h.k, fun e d _ => h.sync e d (fun x => by cases x), h.agr, h.img⟩
 
 /-- consumed one message that was not delivered -/
-theorem invc_consume_fail {L : Log} {c g : Int} {F : Log} {ch : Chan} {st st' : Stream} {im : Option Img}
-    (h : InvC L c g F ch st im) (hk : F.app ≤ c) (hle : c + 1 ≤ L.app) : InvC L (c + 1) g F .failure st' im := by
+theorem invc_consume_fail (h : InvC L c g F ch st dz stp iv) (hk : F.app ≤ c) (hle : c + 1 ≤ L.app) :
+    InvC L (c + 1) g F .failure st' dz' stp iv := by
   have hl := h.lint
-  exact ⟨⟨hl.ack_ge, hl.ack_app, hl.ack_gack, by have := hl.gack_cons; omega, Or.inl hle, hl.holes⟩, h.fint,
+  exact ⟨⟨hl.ack_ge, hl.ack_app, hl.gack_ge, by have := hl.gack_cons; omega, Or.inl hle, by omega, hl.holes⟩, h.ackg, h.fint,
     (fun e => by cases e), (fun e => by cases e), agr_extend h.agr hk, h.img⟩
 
+/-- consumed one message, offered it, and the follower refused it (its next index is another one):
+only possible on a channel the other follower's handshake has disturbed -/
+theorem invc_consume_mismatch (h : InvC L c g F ch st dz stp iv) (hk : F.app ≤ c) (hle : c + 1 ≤ L.app)
+    (hd : ch' = .ready → dz = false → st ≠ .broken → False) : InvC L (c + 1) g F ch' st dz stp iv := by
+  have hl := h.lint
+  exact ⟨⟨hl.ack_ge, hl.ack_app, hl.gack_ge, by have := hl.gack_cons; omega, Or.inl hle, by omega, hl.holes⟩, h.ackg, h.fint,
+    (fun _ => by omega), (fun e d n => (hd e d n).elim), agr_extend h.agr hk, h.img⟩
+
 /-- consumed one message and the follower appended it (it was the follower's next index) -/
-theorem invc_deliver {L : Log} {c g : Int} {F : Log} {ch ch' : Chan} {st st' : Stream} {im : Option Img} {m : Msg}
-    (h : InvC L c g F ch st im) (hc : c = F.app) (hle : c + 1 ≤ L.app) (hm : L.get (c + 1) = some m) :
-    InvC L (c + 1) g (F.put m) ch' st' im := by
+theorem invc_deliver {m : Msg} (h : InvC L c g F ch st dz stp iv) (hc : c = F.app) (hle : c + 1 ≤ L.app)
+    (hm : L.get (c + 1) = some m) : InvC L (c + 1) g (F.put m) ch' st' dz' stp iv := by
   have hl := h.lint
   have hf := h.fint
-  refine ⟨⟨hl.ack_ge, hl.ack_app, hl.ack_gack, by have := hl.gack_cons; omega, Or.inl hle, hl.holes⟩,
+  refine ⟨⟨hl.ack_ge, hl.ack_app, hl.gack_ge, by have := hl.gack_cons; omega, Or.inl hle, by omega, hl.holes⟩, h.ackg,
     ⟨hf.ack_ge, by simp only [Log.put]; have := hf.ack_app; omega, noHoles_put hf.holes hf.ack_app⟩,
-    fun _ => by simp only [Log.put]; omega, fun _ _ => by simp only [Log.put]; omega, ?_, ?_⟩
+    fun _ => by simp only [Log.put]; omega, fun _ _ _ => by simp only [Log.put]; omega, ?_, ?_⟩
   · apply agr_follower_put (agr_extend h.agr (by omega)) hf.ack_app
     intro m' hm'
     rw [← hc, hm] at hm'
@@ -362,145 +262,19 @@ theorem invc_deliver {L : Log} {c g : Int} {F : Log} {ch ch' : Chan} {st st' : S
     exact pre_get_eq hio.pre hm' hm
 
 /-- the group's ack moves forward inside `[gack, cons]` -/
-theorem invc_ack {L : Log} {c g a : Int} {F : Log} {ch : Chan} {st : Stream} {im : Option Img}
-    (h : InvC L c g F ch st im) (h1 : g ≤ a) (h2 : a ≤ c) : InvC L c a F ch st im := by
+theorem invc_ack {a : Int} (h : InvC L c g F ch st dz stp iv) (h1 : g ≤ a) (h2 : a ≤ c) : InvC L c a F ch st dz stp iv := by
   have hl := h.lint
-  refine ⟨⟨hl.ack_ge, hl.ack_app, by have := hl.ack_gack; omega, h2, ?_, hl.holes⟩, h.fint, h.k, h.sync,
+  refine ⟨⟨hl.ack_ge, hl.ack_app, by have := hl.gack_ge; omega, h2, ?_, hl.cons_le, hl.holes⟩,
+    (fun e => by have := h.ackg e; omega), h.fint, h.k, h.sync,
     agr_mono h.agr h1 (Int.le_refl _), h.img⟩
   rcases hl.cons_app with hx | hx
   · exact Or.inl hx
   · exact Or.inr (by omega)
 
-structure SpPost (s s' : St) (o : Out) : Prop where
-  inv : Inv s'
-  stream : s'.stream = s.stream
-  label : o ≠ .mismatch ∧ o ≠ .ignored
-  ackok : s'.gack ≠ s.gack → s'.gack ≤ s'.F.app
-  fmono : s.F.app ≤ s'.F.app
-  nl : NL s → NL s'
-
-theorem sendPhase_spec (s : St) (f : Fault) (h : Inv s) (hr : s.chan = .ready) :
-    SpPost s (sendPhase s f).1 (sendPhase s f).2 := by
+theorem invc_append {m : Msg} (h : InvC L c g F ch st dz stp iv) : InvC (L.put m) c g F ch st dz stp iv := by
   have hl := h.lint
-  have hc1 : -1 ≤ s.cons := by have := hl.ack_ge; have := hl.ack_gack; have := hl.gack_cons; omega
-  unfold sendPhase consume
-  dsimp only
-  split
-  · rename_i hle
-    dsimp only
-    rw [if_neg (by omega)]
-    obtain ⟨m, hm⟩ := hl.holes (s.cons + 1) (by have := hl.ack_gack; have := hl.gack_cons; omega) hle
-    rw [hm]
-    dsimp only
-    unfold replicaSend replicaLog
-    dsimp only
-    have hk := h.k hr
-    split
-    · -- send failed
-      exact ⟨inv_mk (invc_consume_fail (st' := s.stream) h hk hle) rfl rfl rfl rfl rfl rfl rfl, rfl, by simp, by simp, Int.le_refl _,
-        fun n => nlc_consume n hle⟩
-    · rename_i hs
-      have hup : s.stream = .up := by
-        cases hst : s.stream <;> simp_all
-      have hc : s.cons = s.F.app := h.sync hr (by rw [hup]; intro e; cases e)
-      rw [if_neg (by omega : ¬ (s.cons + 1 ≠ s.F.app + 1))]
-      dsimp only
-      split
-      · -- recv failed
-        exact ⟨inv_mk (invc_deliver (ch' := .failure) (st' := s.stream) h hc hle hm) rfl rfl rfl rfl rfl rfl rfl, rfl, by simp,
-          by simp, by simp only [Log.put]; omega, fun n => nlc_deliver n hc hle hm h.fint.ack_app⟩
-      · rw [if_pos (by omega : s.F.app + 1 = s.cons + 1)]
-        unfold ackGroup
-        dsimp only
-        rw [if_pos ⟨by have := hl.gack_cons; omega, by omega⟩]
-        refine ⟨inv_mk (invc_ack (invc_deliver (ch' := s.chan) (st' := s.stream) h hc hle hm) (a := s.F.app + 1) (by have := hl.gack_cons; omega) (by omega))
-          rfl rfl rfl rfl rfl rfl rfl, rfl, by simp, ?_, by simp only [Log.put]; omega,
-          fun n => nlc_deliver n hc hle hm h.fint.ack_app⟩
-        intro _
-        simp only [Log.put]; omega
-  · dsimp only
-    rw [if_pos (by decide)]
-    exact ⟨h, rfl, by simp, by simp, Int.le_refl _, id⟩
-
-/-! ### one `partition.replica` call -/
-
-/-- what every event guarantees -/
-structure EvPost (s s' : St) (o : Out) : Prop where
-  binv : BInv s'
-  label : o ≠ .mismatch ∧ o ≠ .ignored
-  ackok : s'.gack ≠ s.gack → s'.gack ≤ s'.F.app
-  nl : NL s → NL s'
-
-theorem binv_of_notready {s : St} (h : Inv s) (hc : s.chan ≠ .ready) : BInv s :=
-  ⟨h, fun e => absurd e hc⟩
-
-structure IrPost (s s' : St) (ok : Bool) : Prop where
-  inv : Inv s'
-  ok_ready : ok = true → s'.chan = .ready
-  fail : ok = false → s'.chan = .failure
-  ackok : s'.gack ≠ s.gack → s'.gack ≤ s'.F.app
-  nl : NL s → NL s'
-
-theorem isReady_spec (cfg : Cfg) (s : St) (f : Fault) (h : Inv s) :
-    IrPost s (isReady cfg s f).1 (isReady cfg s f).2 := by
-  unfold isReady
-  split
-  · rename_i hr
-    exact ⟨h, fun _ => hr, by simp, by simp, id⟩
-  split
-  · exact ⟨invc_notready h (fun e => by cases e), by simp, by simp, by simp, id⟩
-  · have hs := handshake_spec cfg s f h
-    exact ⟨hs.inv, fun e => (hs.ok_ready e).1, hs.fail, hs.ackok, hs.nl⟩
-
-theorem replicaStep_spec (cfg : Cfg) (s : St) (f : Fault) (h : Inv s) :
-    EvPost s (replicaStep cfg s f).1 (replicaStep cfg s f).2 := by
-  unfold replicaStep
-  have hi := isReady_spec cfg s f h
-  generalize isReady cfg s f = r at hi ⊢
-  obtain ⟨s1, ok⟩ := r
-  dsimp only at hi ⊢
-  cases ok
-  · have hf := hi.fail rfl
-    simp only [Bool.false_eq_true, if_false]
-    refine ⟨binv_of_notready hi.inv (by rw [hf]; intro e; cases e), ?_, hi.ackok, hi.nl⟩
-    split <;> simp
-  · simp only [if_true]
-    have hr := hi.ok_ready rfl
-    have hc := connect_spec s1 f hi.inv hr
-    generalize connect s1 f = r2 at hc ⊢
-    obtain ⟨s2, ok2⟩ := r2
-    dsimp only at hc ⊢
-    cases ok2
-    · have hf := hc.fail rfl
-      simp only [Bool.false_eq_true, if_false]
-      have hnl : NL s1 → NL s2 := by
-        intro n; unfold NL; rw [hc.same.1, hc.same.2.1, hc.same.2.2.2.1]; exact n
-      refine ⟨binv_of_notready hc.inv (by rw [hf]; intro e; cases e), by simp, ?_, fun n => hnl (hi.nl n)⟩
-      rw [hc.same.2.2.1, hc.same.2.2.2.1]
-      exact hi.ackok
-    · simp only [if_true]
-      have hrd := hc.ok_ready rfl
-      have hsp := sendPhase_spec s2 f hc.inv hrd.1
-      have hnl : NL s1 → NL s2 := by
-        intro n; unfold NL; rw [hc.same.1, hc.same.2.1, hc.same.2.2.2.1]; exact n
-      refine ⟨⟨hsp.inv, fun _ => by rw [hsp.stream]; exact hrd.2⟩, hsp.label, ?_, fun n => hsp.nl (hnl (hi.nl n))⟩
-      intro hne
-      by_cases h23 : (sendPhase s2 f).1.gack = s2.gack
-      · have h1 : s1.gack ≠ s.gack := by rw [← hc.same.2.2.1, ← h23]; exact hne
-        have := hi.ackok h1
-        have hm := hsp.fmono
-        rw [hc.same.2.2.2.1] at hm
-        rw [h23, hc.same.2.2.1]
-        omega
-      · exact hsp.ackok h23
-
-/-! ### events -/
-
-theorem invc_append {L : Log} {c g : Int} {F : Log} {ch : Chan} {st : Stream} {im : Option Img} {m : Msg}
-    (h : InvC L c g F ch st im) : InvC (L.put m) c g F ch st im := by
-  have hl := h.lint
-  refine ⟨⟨hl.ack_ge, by simp only [Log.put]; have := hl.ack_app; omega, hl.ack_gack, hl.gack_cons, ?_,
-      noHoles_put hl.holes hl.ack_app⟩, h.fint, h.k, h.sync, ?_, ?_⟩
+  refine ⟨⟨hl.ack_ge, by simp only [Log.put]; have := hl.ack_app; omega, hl.gack_ge, hl.gack_cons, ?_,
+      by simp only [Log.put]; have := hl.cons_le; omega, noHoles_put hl.holes hl.ack_app⟩, h.ackg, h.fint, h.k, h.sync, ?_, ?_⟩
   · rcases hl.cons_app with hx | hx
     · exact Or.inl (by simp only [Log.put]; omega)
     · exact Or.inr hx
@@ -510,41 +284,79 @@ theorem invc_append {L : Log} {c g : Int} {F : Log} {ch : Chan} {st : Stream} {i
   · intro i hi
     exact imgok_leader (h.img i hi) (pre_put (h.img i hi).pre)
 
-theorem invc_flose {L : Log} {c g : Int} {F : Log} {ch : Chan} {st st' : Stream} {im : Option Img}
-    (h : InvC L c g F ch st im) (hs : ch = .ready → st' = .broken) : InvC L c g Log.empty ch st' im := by
+theorem log_empty_get (i : Int) : Log.empty.get i = none := by
+  unfold Log.get Log.empty; dsimp only; split
+  · rename_i hc; omega
+  · rfl
+
+theorem invc_flose (h : InvC L c g F ch st dz stp iv) (hs : ch = .ready → st' = .broken) :
+    InvC L c g Log.empty ch st' dz stp iv := by
   have hl := h.lint
-  have hn : ∀ i, Log.empty.get i = none := by
-    intro i; unfold Log.get Log.empty; dsimp only; split
-    · rename_i hc; omega
-    · rfl
-  refine ⟨hl, ⟨by simp [Log.empty], by simp [Log.empty], noHoles_empty⟩, ?_, ?_, agr_follower_holds_nothing hn, ?_⟩
+  refine ⟨hl, h.ackg, ⟨by simp [Log.empty], by simp [Log.empty], noHoles_empty⟩, ?_, ?_,
+    agr_follower_holds_nothing log_empty_get, ?_⟩
   · intro _
     simp only [Log.empty]
-    have := hl.ack_ge; have := hl.ack_gack; have := hl.gack_cons; omega
-  · intro e n; exact absurd (hs e) n
+    have := lint_cons_ge hl; omega
+  · intro e _ n; exact absurd (hs e) n
   · intro i hi
-    exact imgok_follower (h.img i hi) (agr_follower_holds_nothing hn)
+    exact imgok_follower (h.img i hi) (agr_follower_holds_nothing log_empty_get)
 
-theorem invc_snap {L : Log} {c g o : Int} {F : Log} {ch : Chan} {st : Stream} {im : Option Img}
-    (h : InvC L c g F ch st im) : InvC L c g F ch st (some { L := L, cons := c, gack := g, oack := o }) := by
-  refine ⟨h.lint, h.fint, h.k, h.sync, h.agr, ?_⟩
+/-- a new image of the current state is pushed -/
+theorem invc_snap (h : InvC L c g F ch st dz stp iv) :
+    InvC L c g F ch st dz stp ({ L := L, cons := c, gack := g } :: iv) := by
+  refine ⟨h.lint, h.ackg, h.fint, h.k, h.sync, h.agr, ?_⟩
   intro i hi
-  cases hi
-  exact ⟨h.lint, h.agr, pre_refl L⟩
+  rcases List.mem_cons.mp hi with rfl | hi
+  · exact ⟨h.lint, h.agr, pre_refl L⟩
+  · exact h.img i hi
 
-theorem invc_restore {L : Log} {c g : Int} {F : Log} {ch : Chan} {st st' : Stream} {im : Img} {oi : Option Img}
-    (h : InvC L c g F ch st oi) (hi : oi = some im) : InvC im.L im.cons im.gack F .init st' oi := by
+/-- `NewConsumerGroup` on re-open lifts the ack to the queue's ack and the consumed sequence to the ack -/
+theorem lint_lift (h : LInt L c g) :
+    LInt L (liftCons c (liftAck g L.ack)) (liftAck g L.ack) ∧ L.ack ≤ liftAck g L.ack ∧
+    g ≤ liftAck g L.ack ∧ liftCons c (liftAck g L.ack) = (if c < liftAck g L.ack then liftAck g L.ack else c) := by
+  unfold liftCons liftAck
+  refine ⟨⟨h.ack_ge, h.ack_app, ?_, ?_, ?_, ?_, h.holes⟩, ?_, ?_, rfl⟩
+  · split <;> have := h.ack_ge <;> have := h.gack_ge <;> omega
+  · split <;> split <;> have := h.gack_cons <;> omega
+  · have := h.ack_app; have := h.gack_cons
+    rcases h.cons_app with hx | hx
+    · split <;> split <;> first | (exact Or.inl (by omega)) | (exact Or.inr (by omega))
+    · split <;> split <;> first | (exact Or.inr (by omega)) | (exact Or.inl (by omega))
+  · have := h.ack_app; have := h.cons_le; have := h.gack_cons
+    split <;> split <;> omega
+  · split <;> omega
+  · split <;> omega
+
+/-- the leader re-opens on the image `im`; `iv'` are the images that are kept (all past states of `im`) -/
+theorem invc_restore {im : ImgV} {iv' : List ImgV} (h : InvC L c g F ch st dz stp iv) (hi : im ∈ iv)
+    (hsub : ∀ v, v ∈ iv' → v ∈ iv) (hpre : ∀ v, v ∈ iv' → Pre v.L im.L) :
+    InvC im.L (liftCons im.cons (liftAck im.gack im.L.ack)) (liftAck im.gack im.L.ack) F .init st' dz' false iv' := by
   have ho := h.img im hi
-  refine ⟨ho.lint, h.fint, (fun e => by cases e), (fun e => by cases e), ho.agr, ?_⟩
-  intro j hj
-  rw [hi] at hj
-  cases hj
-  exact ⟨ho.lint, ho.agr, pre_refl _⟩
+  have hl := lint_lift ho.lint
+  refine ⟨hl.1, fun _ => hl.2.1, h.fint, (fun e => by cases e), (fun e => by cases e), ?_, ?_⟩
+  · rw [hl.2.2.2]
+    split
+    · exact agr_empty_range (Int.le_refl _)
+    · exact agr_mono ho.agr hl.2.2.1 (Int.le_refl _)
+  · intro j hj
+    have hjo := h.img j (hsub j hj)
+    exact ⟨hjo.lint, hjo.agr, hpre j hj⟩
 
-theorem invc_gc {L : Log} {c g a : Int} {F : Log} {ch : Chan} {st : Stream} {im : Option Img}
-    (h : InvC L c g F ch st im) (ha : a ≤ g) : InvC (L.setAck a) c g F ch st im := by
+/-- the leader re-opens on its current directory -/
+theorem invc_restart (h : InvC L c g F ch st dz stp iv) :
+    InvC L (liftCons c (liftAck g L.ack)) (liftAck g L.ack) F .init st' dz' false iv := by
+  have hl := lint_lift h.lint
+  refine ⟨hl.1, fun _ => hl.2.1, h.fint, (fun e => by cases e), (fun e => by cases e), ?_, h.img⟩
+  rw [hl.2.2.2]
+  split
+  · exact agr_empty_range (Int.le_refl _)
+  · exact agr_mono h.agr hl.2.2.1 (Int.le_refl _)
+
+theorem invc_gc {a : Int} (h : InvC L c g F ch st dz stp iv) (ha : stp = false → a ≤ g) :
+    InvC (L.setAck a) c g F ch st dz stp iv := by
   have hl := h.lint
-  refine ⟨⟨?_, ?_, ?_, hl.gack_cons, by rw [setAck_app]; exact hl.cons_app, noHoles_setAck hl.holes⟩,
+  refine ⟨⟨?_, ?_, hl.gack_ge, hl.gack_cons, by rw [setAck_app]; exact hl.cons_app, by rw [setAck_app]; exact hl.cons_le,
+      noHoles_setAck hl.holes⟩, ?_,
     h.fint, h.k, h.sync, agr_leader_setAck h.agr, ?_⟩
   · rcases setAck_ack_cases (l := L) (a := a) with hx | hx
     · have := hl.ack_ge; omega
@@ -553,162 +365,77 @@ theorem invc_gc {L : Log} {c g a : Int} {F : Log} {ch : Chan} {st : Stream} {im 
     rcases setAck_ack_cases (l := L) (a := a) with hx | hx
     · omega
     · rw [hx]; exact hl.ack_app
-  · rcases setAck_ack_cases (l := L) (a := a) with hx | hx
-    · omega
-    · rw [hx]; exact hl.ack_gack
+  · intro e
+    rcases setAck_ack_cases (l := L) (a := a) with hx | hx
+    · have := ha e; omega
+    · rw [hx]; exact h.ackg e
   · intro i hi
     exact imgok_leader (h.img i hi) (pre_setAck (h.img i hi).pre)
 
-def Ev.isRestart : Ev → Bool
-  | .lrestore => true
-  | .lrestart => true
-  | _ => false
+/-- the group and its replicator are stopped (the channel state is parked at `init`) -/
+theorem invc_stop (h : InvC L c g F ch st dz stp iv) : InvC L c g F .init .none dz true iv :=
+  ⟨h.lint, (fun e => by cases e), h.fint, (fun e => by cases e), (fun e => by cases e), h.agr, h.img⟩
 
-structure NextPost (s s' : St) (o : Out) (e : Ev) : Prop where
-  binv : BInv s'
-  label : o ≠ .mismatch ∧ o ≠ .ignored
-  ackok : e.isRestart = false → s'.gack ≠ s.gack → s'.gack ≤ s'.F.app
-  nl : e ≠ .lrestore → NL s → NL s'
+end
 
-theorem nextpost_of_evpost {s s' s0 : St} {o : Out} {e : Ev} (h : EvPost s0 s' o) (hg : s0.gack = s.gack)
-    (hn : NL s → NL s0) :
-    NextPost s s' o e := ⟨h.binv, h.label, fun _ => by rw [← hg]; exact h.ackok, fun _ n => h.nl (hn n)⟩
+/-! ### NLC building blocks -/
 
-theorem next_spec (cfg : Cfg) (s : St) (e : Ev) (h : BInv s) :
-    NextPost s (next cfg s e).1 (next cfg s e).2 e := by
-  have hi := h.1
-  have hl := hi.lint
-  cases e with
-  | append m =>
-    simp only [next]
-    refine ⟨?_, by simp, ?_, ?_⟩
-    · split
-      · exact h
-      · exact ⟨inv_mk (invc_append hi) rfl rfl rfl rfl rfl rfl rfl, h.2⟩
-    · intro _; split <;> simp
-    · intro _ n
-      split
-      · exact n
-      · exact nlc_append n
-  | step f =>
-    simp only [next]
-    split
-    · exact ⟨h, by simp, by simp, fun _ n => n⟩
-    · exact nextpost_of_evpost (replicaStep_spec cfg s f hi) rfl id
-  | frestart =>
-    simp only [next]
-    refine ⟨⟨inv_mk (invc_stream (st' := brokenStream s.stream) hi ?_) rfl rfl rfl rfl rfl rfl rfl, ?_⟩, by simp, by simp, fun _ n => n⟩
-    · intro hr hnb
-      have := h.2 hr
-      cases hs : s.stream <;> simp_all [brokenStream]
-    · intro hr
-      have := h.2 hr
-      cases hs : s.stream <;> simp_all [brokenStream]
-  | flose =>
-    have hla : -1 ≤ s.L.app := by have := hl.ack_ge; have := hl.ack_app; omega
-    simp only [next]
-    refine ⟨⟨inv_mk (invc_flose (st' := brokenStream s.stream) hi ?_) rfl rfl rfl rfl rfl rfl rfl, ?_⟩, by simp, by simp,
-      fun _ n => nlc_flose n hla⟩
-    · intro hr
-      have := h.2 hr
-      cases hs : s.stream <;> simp_all [brokenStream]
-    · intro hr
-      have := h.2 hr
-      cases hs : s.stream <;> simp_all [brokenStream]
-  | lsnap =>
-    simp only [next]
-    exact ⟨⟨inv_mk (invc_snap (o := s.oack) hi) rfl rfl rfl rfl rfl rfl rfl, h.2⟩, by simp, by simp, fun _ n => n⟩
-  | lrestore =>
-    simp only [next]
-    split
-    · exact ⟨h, by simp, by simp, fun _ n => n⟩
-    · rename_i im him
-      have ho := hi.img im him
-      refine ⟨binv_of_notready (inv_mk (invc_restore (st' := .none) hi him) rfl rfl ?_ rfl rfl rfl rfl) (by simp [reopenLeader]),
-        by simp, by simp [Ev.isRestart], fun x => absurd rfl x⟩
-      simp only [reopenLeader]
-      rw [if_neg (by have := ho.lint.ack_gack; omega)]
-  | lrestart =>
-    simp only [next]
-    refine ⟨binv_of_notready (inv_mk (invc_notready (ch' := .init) (st' := .none) hi (fun e => by cases e)) rfl rfl ?_ rfl rfl rfl rfl) (by simp [reopenLeader]),
-      by simp, by simp [Ev.isRestart], fun _ n => n⟩
-    simp only [reopenLeader]
-    rw [if_neg (by have := hl.ack_gack; omega)]
-  | offline =>
-    simp only [next]
-    exact ⟨⟨hi, h.2⟩, by simp, by simp, fun _ n => n⟩
-  | online f =>
-    simp only [next]
-    split
-    · exact nextpost_of_evpost (replicaStep_spec cfg _ f (inv_mk hi rfl rfl rfl rfl rfl rfl rfl)) rfl id
-    · exact ⟨⟨hi, h.2⟩, by simp, by simp, fun _ n => n⟩
-  | gc =>
-    have key : ∀ a, a ≤ s.gack → NextPost s (if 0 ≤ a then { s with L := s.L.setAck a } else s) Out.idle .gc := by
-      intro a ha
-      refine ⟨?_, by simp, ?_, ?_⟩
-      · split
-        · exact ⟨inv_mk (invc_gc hi ha) rfl rfl rfl rfl rfl rfl rfl, h.2⟩
-        · exact h
-      · intro _; split <;> simp
-      · intro _ n
-        split
-        · exact nlc_gc n
-        · exact n
-    simp only [next]
-    exact key _ (by split <;> split <;> omega)
-  | oack n =>
-    simp only [next]
-    refine ⟨?_, by simp, ?_, ?_⟩
-    · split
-      · exact ⟨inv_mk hi rfl rfl rfl rfl rfl rfl rfl, h.2⟩
-      · exact h
-    · intro _; split <;> simp
-    · intro _ n
-      split
-      · exact n
-      · exact n
+section
+variable {L : Log} {c g : Int} {F : Log}
 
-/-! ### all event sequences -/
+theorem g_follower_holds_nothing {L F : Log} (h : ∀ i, F.get i = none) : G L F := by
+  intro i m' hf; rw [h i] at hf; cases hf
 
-theorem binv_init : BInv St.init := by
-  have hn : ∀ i, Log.empty.get i = none := by
-    intro i; unfold Log.get Log.empty; dsimp only; split
-    · rename_i hc; omega
-    · rfl
-  refine ⟨⟨⟨by simp [St.init, Log.empty], by simp [St.init, Log.empty], by simp [St.init, Log.empty],
-      by simp [St.init], Or.inl (by simp [St.init, Log.empty]), noHoles_empty⟩,
-    ⟨by simp [St.init, Log.empty], by simp [St.init, Log.empty], noHoles_empty⟩,
-    (fun e => by simp [St.init] at e), (fun e => by simp [St.init] at e),
-    agr_follower_holds_nothing hn, (fun im e => by simp [St.init] at e)⟩, fun e => by simp [St.init] at e⟩
+theorem nlc_follower_reset (h : NLC L c g F) (hg : g ≤ c) : NLC L g g (F.setAppended g) :=
+  ⟨by have := h.cons_app; omega, by simp only [Log.setAppended]; have := h.cons_app; omega,
+   by simp only [Log.setAppended]; omega, g_follower_holds_nothing (fun _ => get_setAppended)⟩
 
-theorem nl_init : NL St.init := by
-  refine ⟨by simp [St.init, Log.empty], by simp [St.init, Log.empty], g_follower_holds_nothing ?_⟩
-  intro i; unfold Log.get St.init Log.empty; dsimp only; split
-  · rename_i hc; omega
-  · rfl
+theorem nlc_rewind (h : NLC L c g F) (hf : F.ack ≤ F.app) : NLC L F.app F.app F :=
+  ⟨h.f_app, h.f_app, hf, h.g⟩
 
-theorem binv_foldl (cfg : Cfg) (evs : List Ev) : ∀ s, BInv s →
-    BInv (evs.foldl (fun s e => (next cfg s e).1) s) := by
-  induction evs with
-  | nil => intro s h; exact h
-  | cons e t ih => intro s h; exact ih _ (next_spec cfg s e h).binv
+theorem nlc_consume (h : NLC L c g F) (hle : c + 1 ≤ L.app) : NLC L (c + 1) g F :=
+  ⟨hle, h.f_app, h.f_ack, h.g⟩
 
-theorem binv_run (cfg : Cfg) (evs : List Ev) : BInv (run cfg evs) :=
-  binv_foldl cfg evs _ binv_init
+theorem nlc_ack {a : Int} (h : NLC L c g F) (hga : g ≤ a) : NLC L c a F :=
+  ⟨h.cons_app, h.f_app, by have := h.f_ack; omega, h.g⟩
 
-/-- histories without leader tail loss -/
-def NoLoss (evs : List Ev) : Prop := ∀ e ∈ evs, e ≠ Ev.lrestore
+theorem nlc_deliver {m : Msg} (h : NLC L c g F) (hc : c = F.app)
+    (hle : c + 1 ≤ L.app) (hm : L.get (c + 1) = some m) (hf : F.ack ≤ F.app) : NLC L (c + 1) g (F.put m) := by
+  refine ⟨hle, by simp only [Log.put]; omega, by simp only [Log.put]; exact h.f_ack, ?_⟩
+  intro i m' hg
+  by_cases hi : i = F.app + 1
+  · subst hi
+    rw [get_put_eq hf] at hg
+    cases hg
+    rw [← hc]
+    exact ⟨hle, (get_some hm).2.2⟩
+  · rw [get_put_ne hi] at hg
+    exact h.g i m' hg
 
-theorem nl_foldl (cfg : Cfg) (evs : List Ev) (hn : NoLoss evs) : ∀ s, BInv s → NL s →
-    NL (evs.foldl (fun s e => (next cfg s e).1) s) := by
-  induction evs with
-  | nil => intro s _ n; exact n
-  | cons e t ih =>
-    intro s h n
-    have hp := next_spec cfg s e h
-    exact ih (fun x hx => hn x (List.mem_cons_of_mem _ hx)) _ hp.binv (hp.nl (hn e List.mem_cons_self) n)
+theorem nlc_append {m : Msg} (h : NLC L c g F) : NLC (L.put m) c g F := by
+  refine ⟨by simp only [Log.put]; have := h.cons_app; omega, by simp only [Log.put]; have := h.f_app; omega, h.f_ack, ?_⟩
+  intro i m' hf
+  have hx := h.g i m' hf
+  refine ⟨by simp only [Log.put]; omega, ?_⟩
+  simp only [Log.put]
+  rw [lookup_cons_ne (by omega)]
+  exact hx.2
 
-theorem nl_run (cfg : Cfg) (evs : List Ev) (hn : NoLoss evs) : NL (run cfg evs) :=
-  nl_foldl cfg evs hn _ binv_init nl_init
+theorem nlc_flose (h : NLC L c g F) (hl : -1 ≤ L.app) (hg : -1 ≤ g) : NLC L c g Log.empty :=
+  ⟨h.cons_app, by simp only [Log.empty]; exact hl, by simp only [Log.empty]; exact hg,
+   g_follower_holds_nothing log_empty_get⟩
+
+theorem nlc_gc {a : Int} (h : NLC L c g F) : NLC (L.setAck a) c g F :=
+  ⟨by rw [setAck_app]; exact h.cons_app, by rw [setAck_app]; exact h.f_app, h.f_ack,
+   fun i m' hf => by rw [setAck_app, setAck_store]; exact h.g i m' hf⟩
+
+/-- full agreement follows from `G` -/
+theorem agreement_of_g {L F : Log} (h : G L F) {i : Int} {m m' : Msg} (hl : L.get i = some m)
+    (hf : F.get i = some m') : m = m' := by
+  have a := (get_some hl).2.2
+  have b := (h i m' hf).2
+  rw [a] at b; cases b; rfl
+
+end
 
 end LinVerif.Replication
